@@ -266,4 +266,1603 @@ theorem finish_quit {w : World} (h : Inv w) {cn : Conn} (hm : cn ∈ w.conns) {x
       · exact h.settled y hy') cfg _ evs).trans ?_
   exact teardown_setConn h.toInvCore (cn := cn) (cn' := { cn with quit := true }) hm rfl rfl rfl
 
+/-! ### 5. `bumpCount` commutes with everything relevant -/
+
+theorem inv_bumpCount {w : World} (h : Inv w) (i : Nat) : Inv (bumpCount w i) :=
+  { toInvCore := invCore_bumpCount h.toInvCore i, settled := h.settled, notKilled := h.notKilled }
+
+theorem teardown_bumpCount (w : World) (c i : Nat) :
+    teardown (bumpCount w i) c = bumpCount (teardown w c) i := by
+  cases hc : w.conn? c with
+  | none =>
+    have hc' : (bumpCount w i).conn? c = none := hc
+    unfold teardown; rw [hc, hc']
+  | some cn =>
+    have hc' : (bumpCount w i).conn? c = some cn := hc
+    rw [teardown_eq_of_conn? hc, teardown_eq_of_conn? hc']
+    have hb : bumpCount w i = upd w.conns w.connsCount (w.cmdCounts.set i (w.cmdCounts.getD i 0 + 1)) w := rfl
+    split
+    · split
+      · rw [hb, removeUser_upd]
+        simp only [upd, bumpCount, removeUser_cmdCounts_eq]
+      · rfl
+    · rfl
+
+/-! ### 6. the ends of a connection at `step` level -/
+
+theorem finish_quit' {w : World} (h : Inv w) {cn : Conn} (hm : cn ∈ w.conns) {y : Ctx}
+    (hy : y.w = w.setConn { cn with quit := true }) (cfg : Cfg) (evs : List Str) :
+    (finish cfg cn.id y evs).w = teardown w cn.id := by
+  have := finish_quit h hm (x := { w := w, direct := y.direct, queued := y.queued }) rfl cfg evs
+  rw [← this]
+  unfold finish
+  simp only [Ctx.setConn_w, hy, Ctx.setConn_direct, Ctx.setConn_queued]
+
+theorem step_eof_w {cfg : Cfg} {w : World} (h : Inv w) {cn : Conn} (hm : cn ∈ w.conns) :
+    (step cfg w (.eof cn.id)).w = teardown w cn.id := by
+  unfold step
+  simp only [conn?_mem h.toInvCore hm]
+  exact finish_quit' h hm rfl cfg []
+
+theorem step_reset_w {cfg : Cfg} {w : World} (h : Inv w) {cn : Conn} (hm : cn ∈ w.conns) :
+    (step cfg w (.reset cn.id)).w = teardown w cn.id := by
+  unfold step
+  simp only [conn?_mem h.toInvCore hm]
+  exact finish_quit' h hm rfl cfg []
+
+theorem step_badUtf8_w {cfg : Cfg} {w : World} (h : Inv w) {cn : Conn} (hm : cn ∈ w.conns) :
+    (step cfg w (.badUtf8 cn.id)).w = teardown w cn.id := by
+  unfold step
+  simp only [conn?_mem h.toInvCore hm]
+  exact finish_quit' h hm rfl cfg []
+
+theorem step_tooLong_w {cfg : Cfg} {w : World} (h : Inv w) {cn : Conn} (hm : cn ∈ w.conns) :
+    (step cfg w (.tooLong cn.id)).w = teardown w cn.id := by
+  unfold step
+  simp only [conn?_mem h.toInvCore hm]
+  exact finish_quit' h hm rfl cfg []
+
+/-- a line that parses to the command QUIT -/
+def IsQuitLine (s : Str) : Prop :=
+  ∃ msg, Message.parse s = .ok msg ∧ Command.fromMessage msg = .ok .QUIT
+
+theorem handleLine_quit {cfg : Cfg} {c : Nat} {s : Str} {x : Ctx} (hq : IsQuitLine s) :
+    handleLine cfg c s x =
+      processQuit cfg c (x.modifyW (fun w => bumpCount w CmdId.QUIT.index)) := by
+  obtain ⟨msg, hp, hc⟩ := hq
+  unfold handleLine
+  simp only [hp, hc, allowedUnregistered, Bool.not_true, Bool.false_and, Bool.false_eq_true, ↓reduceIte,
+    dispatch]
+  rfl
+
+theorem step_quit_w {cfg : Cfg} {w : World} (h : Inv w) {cn : Conn} (hm : cn ∈ w.conns) {s : Str}
+    (hq : IsQuitLine s) :
+    (step cfg w (.line cn.id s)).w = bumpCount (teardown w cn.id) CmdId.QUIT.index := by
+  unfold step
+  simp only [conn?_mem h.toInvCore hm]
+  rw [handleLine_quit hq, ← teardown_bumpCount]
+  have hb := inv_bumpCount h CmdId.QUIT.index
+  have hm' : cn ∈ (bumpCount w CmdId.QUIT.index).conns := hm
+  apply finish_quit' hb hm'
+  unfold processQuit
+  simp only [Ctx.reply_w, Ctx.setConn_w, Ctx.modifyW_w]
+  have : (Ctx.modifyW { w := w } fun w => bumpCount w CmdId.QUIT.index).conn cn.id = cn := by
+    apply Reg.Ctx.conn_of_conn?
+    exact conn?_mem h.toInvCore hm
+  rw [this]
+
+/-! ### 7. a line of a connection that is not (yet) registered -/
+
+theorem regEffect_of_bump {c i : Nat} {x y : Ctx}
+    (h : RegEffect c (x.modifyW (fun w => bumpCount w i)) y) : RegEffect c x y := h
+
+theorem regEffect_reply {c : Nat} {x y : Ctx} (cfg : Cfg) (t : Str) (h : RegEffect c x y) :
+    RegEffect c x (y.reply cfg t) := h
+
+/-- whatever line an unregistered live connection sends, its effect on the registered users is that
+    of a registration command (`RegEffect`): none, or its own registration under a free nick -/
+theorem handleLine_unreg_regEffect {cfg : Cfg} {c : Nat} {s : Str} {x : Ctx}
+    (h : InvCore x.w) (hl : Live x.w c) (hu : (x.conn c).authenticated = false) :
+    RegEffect c x (handleLine cfg c s x) := by
+  unfold handleLine
+  simp only
+  split
+  · exact Reg.regEffect_refl_of_unauth rfl hu
+  · exact Reg.regEffect_refl_of_unauth rfl hu
+  · exact Reg.regEffect_refl_of_unauth rfl hu
+  · rename_i msg _
+    split
+    · exact Reg.regEffect_refl_of_unauth rfl hu
+    · rename_i cmd hcmd
+      apply regEffect_of_bump (i := cmd.id.index)
+      have hb : InvCore (x.modifyW (fun w => bumpCount w cmd.id.index)).w := invCore_bumpCount h _
+      have hlb : Live (x.modifyW (fun w => bumpCount w cmd.id.index)).w c := hl
+      have hub : ((x.modifyW (fun w => bumpCount w cmd.id.index)).conn c).authenticated = false := hu
+      generalize x.modifyW (fun w => bumpCount w cmd.id.index) = x' at hb hlb hub
+      split
+      · exact Reg.regEffect_refl_of_unauth rfl hub
+      · rename_i hg
+        have hall : allowedUnregistered cmd = true := by
+          rw [hu] at hg
+          simpa using hg
+        have hk := unregistered_nick_user_pass_cap_keep_users (cfg := cfg) hb hlb hub
+        cases cmd with
+        | CAP sub caps v => exact (hk [] ⟨none, [], []⟩ [] [] [] sub caps).2.2.2
+        | AUTHENTICATE => exact Reg.regEffect_refl_of_unauth rfl hub
+        | PASS p => exact (hk [] ⟨none, [], []⟩ [] [] p .LS none).2.2.1
+        | NICK n => exact (hk n msg [] [] [] .LS none).1
+        | USER u a b r => exact (hk [] ⟨none, [], []⟩ u r [] .LS none).2.1
+        | QUIT =>
+          obtain ⟨_, hcid⟩ := Reg.Ctx.conn_of_live hlb
+          exact regEffect_reply cfg _ (Reg.setConn_regEffect hlb hcid hub)
+        | _ => simp [allowedUnregistered] at hall
+
+/-! ### 8. more facts about `teardown` -/
+
+theorem map_eq_nil_of_lookup_none {α : Type} (m : Map α) (h : ∀ k, Map.lookup k m = none) : m = [] := by
+  cases m with
+  | nil => rfl
+  | cons p m =>
+    obtain ⟨k, v⟩ := p
+    have := h k
+    simp [Map.lookup] at this
+
+theorem teardown_mem_conns {w : World} (h : InvCore w) {cn : Conn} (hm : cn ∈ w.conns) (y : Conn) :
+    y ∈ (teardown w cn.id).conns ↔ y ∈ w.conns ∧ y.id ≠ cn.id := by
+  rw [teardown_conns h hm, List.mem_filter]
+  simp
+
+theorem teardown_connsCount {w : World} (h : InvCore w) {cn : Conn} (hm : cn ∈ w.conns) :
+    (teardown w cn.id).connsCount + 1 = w.connsCount ∧
+    (teardown w cn.id).connsCount = (teardown w cn.id).conns.length ∧
+    (teardown w cn.id).conns.length + 1 = w.conns.length := by
+  have h1 := (invCore_teardown h cn hm).slots
+  have h2 := filter_id_length h.connsNodup hm
+  rw [← teardown_conns h hm] at h2
+  have h3 := h.slots
+  omega
+
+theorem teardown_wallops_others {w : World} (h : InvCore w) {cn : Conn} (hm : cn ∈ w.conns)
+    (ha : cn.authenticated = true) {n : Str} (hn : cn.nick = some n) (m : Str) (hne : m ≠ n) :
+    KSet.mem m (teardown w cn.id).wallops = KSet.mem m w.wallops := by
+  obtain ⟨u, CH, _, _, e, _, _⟩ := teardown_auth_eq h hm ha hn
+  rw [e]
+  show KSet.mem m (KSet.erase n w.wallops) = _
+  rw [KSet.mem_erase]; simp [hne]
+
+theorem teardown_srvQuit {w : World} (h : InvCore w) {cn : Conn} (hm : cn ∈ w.conns) :
+    (teardown w cn.id).srvQuit = w.srvQuit ∧ (teardown w cn.id).cmdCounts = w.cmdCounts := by
+  cases ha : cn.authenticated with
+  | false =>
+    obtain ⟨_, _, _, _, _, _, _, a, b, _⟩ := teardown_unauthenticated_noop h hm ha
+    exact ⟨a, b⟩
+  | true =>
+    obtain ⟨n, u, hn, _, _⟩ := h.authOwns cn hm ha
+    obtain ⟨u, CH, _, _, e, _, _⟩ := teardown_auth_eq h hm ha hn
+    rw [e]; exact ⟨rfl, rfl⟩
+
+/-- a channel disappears with the departing user exactly if it is not preconfigured and the user was
+    its only member -/
+theorem teardown_vanish_iff {w : World} (h : InvCore w) {cn : Conn} (hm : cn ∈ w.conns)
+    (ha : cn.authenticated = true) {n : Str} (hn : cn.nick = some n) {ch : Str} {C : Channel}
+    (hC : Map.lookup ch w.channels = some C) :
+    Map.lookup ch (teardown w cn.id).channels = none ↔
+      (C.preconfigured = false ∧ ∀ m, Map.contains m C.users = true ↔ m = n) := by
+  obtain ⟨_, hk, hv, _⟩ := teardown_keeps_others h hm ha hn
+  constructor
+  · intro hnone
+    obtain ⟨hp, hc, hall⟩ := hv ch C hC hnone
+    exact ⟨hp, fun m => ⟨hall m, fun e => e ▸ hc⟩⟩
+  · rintro ⟨hp, hall⟩
+    cases hC' : Map.lookup ch (teardown w cn.id).channels with
+    | none => rfl
+    | some C' =>
+      exfalso
+      obtain ⟨C0, hC0, hs⟩ := hk ch C' hC'
+      rw [hC] at hC0; cases hC0
+      have hgone := ((teardown_removes_user h hm ha hn).2.2 ch C' hC').1
+      have hemp : C'.users = [] := by
+        apply map_eq_nil_of_lookup_none
+        intro k
+        by_cases e : k = n
+        · subst e; exact (Map.contains_false_iff _ _).mp hgone
+        · rw [hs.2.2.2.2.2.2.2.2.2.2.2.2.2.2.1 k e]
+          apply (Map.contains_false_iff _ _).mp
+          cases hc : Map.contains k C.users with
+          | false => rfl
+          | true => exact absurd ((hall k).mp hc) e
+      have := (invCore_teardown h cn hm).noEmptyAdHoc ch C' hC' hemp
+      rw [hs.2.2.2.1, hp] at this
+      cases this
+
+/-- closing a live connection leaves every user entry alone that is not the connection's own -/
+theorem teardown_lookup_other {w : World} (h : InvCore w) {cn : Conn} (hm : cn ∈ w.conns) {m : Str}
+    (hne : ¬ (cn.authenticated = true ∧ cn.nick = some m)) :
+    Map.lookup m (teardown w cn.id).users = Map.lookup m w.users := by
+  cases ha : cn.authenticated with
+  | false => rw [(teardown_unauthenticated_noop h hm ha).1]
+  | true =>
+    obtain ⟨n, u, hn, _, _⟩ := h.authOwns cn hm ha
+    refine (teardown_keeps_others h hm ha hn).1 m ?_
+    rintro rfl
+    exact hne ⟨ha, hn⟩
+
+/-! ### 9. the ways a connection ends by itself, at `step` level -/
+
+/-- the stream-end events of `step` -/
+inductive IsEnd (c : Nat) : Event → Prop
+  | eof : IsEnd c (.eof c)
+  | reset : IsEnd c (.reset c)
+  | badUtf8 : IsEnd c (.badUtf8 c)
+  | tooLong : IsEnd c (.tooLong c)
+
+/-- `e` is an event by which connection `c` ends itself: its stream ends (EOF, reset, undecodable
+    bytes, over-long line) or it sends QUIT -/
+def EndsItself (c : Nat) (e : Event) : Prop := IsEnd c e ∨ ∃ s, IsQuitLine s ∧ e = .line c s
+
+theorem step_end_w {cfg : Cfg} {w : World} (h : Inv w) {cn : Conn} (hm : cn ∈ w.conns) {e : Event}
+    (he : IsEnd cn.id e) : (step cfg w e).w = teardown w cn.id := by
+  cases he
+  · exact step_eof_w h hm
+  · exact step_reset_w h hm
+  · exact step_badUtf8_w h hm
+  · exact step_tooLong_w h hm
+
+/-- two worlds that differ at most in the STATS counters -/
+structure EqUpToCounts (a b : World) : Prop where
+  users : a.users = b.users
+  channels : a.channels = b.channels
+  wallops : a.wallops = b.wallops
+  invisibleCount : a.invisibleCount = b.invisibleCount
+  operatorsCount : a.operatorsCount = b.operatorsCount
+  maxUsers : a.maxUsers = b.maxUsers
+  histories : a.histories = b.histories
+  conns : a.conns = b.conns
+  connsCount : a.connsCount = b.connsCount
+  srvQuit : a.srvQuit = b.srvQuit
+  panicked : a.panicked = b.panicked
+
+theorem EqUpToCounts.refl (a : World) : EqUpToCounts a a := ⟨rfl, rfl, rfl, rfl, rfl, rfl, rfl, rfl, rfl, rfl, rfl⟩
+
+theorem eqUpToCounts_bump (a : World) (i : Nat) : EqUpToCounts (bumpCount a i) a :=
+  ⟨rfl, rfl, rfl, rfl, rfl, rfl, rfl, rfl, rfl, rfl, rfl⟩
+
+/-- every way a live connection of a settled world ends itself is one `teardown` (QUIT also counts the
+    command in the STATS table) -/
+theorem step_self_end {cfg : Cfg} {w : World} (h : Inv w) {cn : Conn} (hm : cn ∈ w.conns) {e : Event}
+    (he : EndsItself cn.id e) : EqUpToCounts (step cfg w e).w (teardown w cn.id) := by
+  rcases he with he | ⟨s, hq, rfl⟩
+  · rw [step_end_w h hm he]; exact EqUpToCounts.refl _
+  · rw [step_quit_w h hm hq]; exact eqUpToCounts_bump _ _
+
+/-! ### 10. the settling phase with several flagged connections -/
+
+theorem settleW_cases {w : World} (h : InvCore w) (i : Nat) :
+    settleW w i = w ∨
+    ∃ cn, cn ∈ w.conns ∧ cn.id = i ∧ flagged cn = true ∧ settleW w i = teardown w cn.id := by
+  cases hc : w.conn? i with
+  | none => left; unfold settleW; rw [hc]
+  | some cn =>
+    obtain ⟨hm, hid⟩ := conn?_some hc
+    cases hf : flagged cn with
+    | false =>
+      left
+      apply settleW_of_unflagged
+      intro cn' hc'
+      rw [hc] at hc'; cases hc'
+      exact flagged_false.mp hf
+    | true =>
+      right
+      exact ⟨cn, hm, hid, hf, hid ▸ settleW_of_flagged h hm hf⟩
+
+/-- a user whose owning connection is not flagged survives one settling step unchanged -/
+theorem settleW_lookup_unflagged {w : World} (h : InvCore w) (i : Nat) {m : Str} {u : User}
+    (hu : Map.lookup m w.users = some u)
+    (hf : ∀ y, y ∈ w.conns → y.id = u.owner → flagged y = false) :
+    Map.lookup m (settleW w i).users = some u := by
+  rcases settleW_cases h i with e | ⟨cn, hm, _, hfl, e⟩
+  · rw [e]; exact hu
+  · rw [e, teardown_lookup_other h hm, hu]
+    rintro ⟨ha, hn⟩
+    obtain ⟨n', u', hn', hu', ho'⟩ := h.authOwns cn hm ha
+    rw [hn] at hn'; cases hn'
+    rw [hu] at hu'; cases hu'
+    rw [hf cn hm ho'.symm] at hfl; cases hfl
+
+theorem foldl_settleW_lookup_unflagged (l : List Nat) {w : World} (h : InvCore w) {m : Str} {u : User}
+    (hu : Map.lookup m w.users = some u)
+    (hf : ∀ y, y ∈ w.conns → y.id = u.owner → flagged y = false) :
+    Map.lookup m (l.foldl settleW w).users = some u := by
+  induction l generalizing w with
+  | nil => exact hu
+  | cons i l ih =>
+    rw [List.foldl_cons]
+    obtain ⟨h1, hc1⟩ := settleW_spec h i
+    exact ih h1 (settleW_lookup_unflagged h i hu hf) (fun y hy ho => hf y ((hc1 y).mp hy).1 ho)
+
+/-- the settling phase leaves every user alone whose connection is not flagged -/
+theorem settle_lookup_unflagged {w : World} (h : InvCore w) (cfg : Cfg) (outs : List (Nat × Str))
+    (evs : List Str) {m : Str} {u : User} (hu : Map.lookup m w.users = some u)
+    (hf : ∀ y, y ∈ w.conns → y.id = u.owner → flagged y = false) :
+    Map.lookup m (settle cfg w outs evs).1.users = some u := by
+  unfold settle
+  rw [settle_w]
+  exact foldl_settleW_lookup_unflagged _ h hu hf
+
+/-- the settling phase removes the user of every flagged registered connection -/
+theorem settle_flagged_gone {w : World} (h : InvCore w) (cfg : Cfg) (outs : List (Nat × Str))
+    (evs : List Str) {cn : Conn} (hm : cn ∈ w.conns) (hf : flagged cn = true)
+    (ha : cn.authenticated = true) {n : Str} (hn : cn.nick = some n) :
+    Map.lookup n (settle cfg w outs evs).1.users = none := by
+  obtain ⟨hi, hc⟩ := inv_settle h cfg outs evs
+  cases hl : Map.lookup n (settle cfg w outs evs).1.users with
+  | none => rfl
+  | some u =>
+    exfalso
+    obtain ⟨y, hy, _, hya, hyn⟩ := hi.userOwned n u hl
+    obtain ⟨hyw, hq, hk⟩ := (hc y).mp hy
+    have : y = cn := owner_unique h hyw hya hyn hm ha hn
+    subst this
+    rw [flagged_false.mpr ⟨hq, hk⟩] at hf; cases hf
+
+theorem nodup_of_nodup_ids {l : List Conn} (h : (l.map (·.id)).Nodup) : l.Nodup :=
+  List.Pairwise.of_map (·.id) (fun _ _ hne e => hne (congrArg _ e)) h
+
+theorem filter_partition_length {α : Type} (p : α → Bool) (l : List α) :
+    (l.filter (fun y => !p y)).length + (l.filter p).length = l.length := by
+  induction l with
+  | nil => rfl
+  | cons a l ih =>
+    simp only [List.filter_cons]
+    cases p a <;> simp <;> omega
+
+/-- the settling phase frees the slot of every flagged connection and of no other -/
+theorem settle_slots {w : World} (h : InvCore w) (cfg : Cfg) (outs : List (Nat × Str)) (evs : List Str) :
+    (settle cfg w outs evs).1.connsCount = (settle cfg w outs evs).1.conns.length ∧
+    (settle cfg w outs evs).1.conns.length = (w.conns.filter (fun y => !flagged y)).length ∧
+    (settle cfg w outs evs).1.connsCount + (w.conns.filter flagged).length = w.connsCount := by
+  obtain ⟨hi, hc⟩ := inv_settle h cfg outs evs
+  have h1 := hi.slots
+  have h2 : (settle cfg w outs evs).1.conns.length = (w.conns.filter (fun y => !flagged y)).length := by
+    apply List.Perm.length_eq
+    rw [List.perm_ext_iff_of_nodup (nodup_of_nodup_ids hi.connsNodup)
+      ((nodup_of_nodup_ids h.connsNodup).sublist List.filter_sublist)]
+    intro y
+    rw [hc y, List.mem_filter]
+    simp only [Bool.not_eq_eq_eq_not, Bool.not_true, flagged_false]
+  refine ⟨h1, h2, ?_⟩
+  have h3 := filter_partition_length flagged w.conns
+  have := h.slots
+  omega
+
+/-! ### 11. the number of connections -/
+
+theorem sameConnIds_length {w w' : World} (h : SameConnIds w w') : w'.conns.length = w.conns.length := by
+  have := congrArg List.length h
+  simpa using this
+
+theorem finish_conns_length_le {cfg : Cfg} {c : Nat} {x : Ctx} {evs : List Str} (h : InvCore x.w) :
+    (finish cfg c x evs).w.conns.length ≤ x.w.conns.length := by
+  unfold finish
+  simp only
+  rw [(settle_slots h cfg _ evs).2.1]
+  exact List.length_filter_le _ _
+
+/-- no event other than `connect` increases the number of connections -/
+theorem step_conns_length_le {cfg : Cfg} {w : World} (h : Inv w) {e : Event}
+    (hne : ∀ c ip, e ≠ .connect c ip) : (step cfg w e).w.conns.length ≤ w.conns.length := by
+  cases e with
+  | connect c ip => exact absurd rfl (hne c ip)
+  | line c s =>
+    unfold step
+    simp only
+    split
+    · exact Nat.le_refl _
+    · rename_i cn hc
+      obtain ⟨hm, hid⟩ := conn?_some hc
+      obtain ⟨hi, hs⟩ := invCore_handleLine (cfg := cfg) (s := s) (x := { w := w }) h.toInvCore ⟨cn, hm, hid⟩
+      exact Nat.le_trans (finish_conns_length_le hi) (Nat.le_of_eq (sameConnIds_length hs))
+  | tooLong c =>
+    unfold step
+    simp only
+    split
+    · exact Nat.le_refl _
+    · rename_i cn hc
+      obtain ⟨hm, hid⟩ := conn?_some hc
+      refine Nat.le_trans (finish_conns_length_le ?_) ?_
+      · exact invCore_setConn_quit h.toInvCore hm cn.killedBy
+      · exact Nat.le_of_eq (Reg.setConn_conns_length _ _)
+  | badUtf8 c =>
+    unfold step
+    simp only
+    split
+    · exact Nat.le_refl _
+    · rename_i cn hc
+      obtain ⟨hm, hid⟩ := conn?_some hc
+      refine Nat.le_trans (finish_conns_length_le ?_) ?_
+      · exact invCore_setConn_quit h.toInvCore hm cn.killedBy
+      · exact Nat.le_of_eq (Reg.setConn_conns_length _ _)
+  | eof c =>
+    unfold step
+    simp only
+    split
+    · exact Nat.le_refl _
+    · rename_i cn hc
+      obtain ⟨hm, hid⟩ := conn?_some hc
+      refine Nat.le_trans (finish_conns_length_le ?_) ?_
+      · exact invCore_setConn_quit h.toInvCore hm cn.killedBy
+      · exact Nat.le_of_eq (Reg.setConn_conns_length _ _)
+  | reset c =>
+    unfold step
+    simp only
+    split
+    · exact Nat.le_refl _
+    · rename_i cn hc
+      obtain ⟨hm, hid⟩ := conn?_some hc
+      refine Nat.le_trans (finish_conns_length_le ?_) ?_
+      · exact invCore_setConn_quit h.toInvCore hm cn.killedBy
+      · exact Nat.le_of_eq (Reg.setConn_conns_length _ _)
+  | partialLine c s =>
+    unfold step
+    simp only
+    split <;> exact Nat.le_refl _
+
+/-- `connect`: refused exactly when the slot counter has reached the configured maximum -/
+theorem step_connect_cases (cfg : Cfg) (w : World) (c : Nat) (ip : Str) :
+    ((∃ m, cfg.maxConnections = some m ∧ m ≤ w.connsCount) ∧
+      step cfg w (.connect c ip) = { w := w, events := [str "refused " ++ natToStr c] }) ∨
+    ((∀ m, cfg.maxConnections = some m → w.connsCount < m) ∧
+      step cfg w (.connect c ip) =
+        { w := { w with conns := w.conns ++ [Conn.new c ip], connsCount := w.connsCount + 1 } }) := by
+  unfold step
+  simp only
+  cases hmc : cfg.maxConnections with
+  | none =>
+    right
+    simp
+  | some m =>
+    by_cases hlt : w.connsCount < m
+    · right
+      simp [hlt]
+    · left
+      simp only [hlt, decide_false, Bool.not_false, ↓reduceIte, and_true]
+      exact ⟨m, rfl, Nat.le_of_not_lt hlt⟩
+
+/-! ### 12. list helpers for the reply views (NAMES / WHO / WHOIS) -/
+
+/-- selecting with `filterMap g` and then reading a key back is filtering -/
+theorem map_filterMap_eq_filter {α β γ : Type} (l : List α) (g : α → Option β) (key : β → γ) (proj : α → γ)
+    (vis : α → Bool) (hk : ∀ a b, a ∈ l → g a = some b → key b = proj a)
+    (hv : ∀ a, a ∈ l → (g a).isSome = vis a) :
+    (l.filterMap g).map key = (l.filter vis).map proj := by
+  induction l with
+  | nil => rfl
+  | cons a l ih =>
+    have ih' := ih (fun a b ha => hk a b (List.mem_cons_of_mem _ ha)) (fun a ha => hv a (List.mem_cons_of_mem _ ha))
+    have hva := hv a (List.mem_cons_self ..)
+    cases hg : g a with
+    | none =>
+      rw [hg] at hva
+      have : vis a = false := by simpa using hva.symm
+      simp only [List.filterMap_cons, hg, List.filter_cons, this, Bool.false_eq_true, ↓reduceIte]
+      exact ih'
+    | some b =>
+      rw [hg] at hva
+      have : vis a = true := by simpa using hva.symm
+      simp only [List.filterMap_cons, hg, List.filter_cons, this, ↓reduceIte, List.map_cons, ih',
+        hk a b (List.mem_cons_self ..) hg]
+
+theorem filterMap_congr' {α β : Type} {f g : α → Option β} {l : List α} (h : ∀ x, x ∈ l → f x = g x) :
+    l.filterMap f = l.filterMap g := by
+  induction l with
+  | nil => rfl
+  | cons a l ih =>
+    simp only [List.filterMap_cons, h a (List.mem_cons_self ..)]
+    rw [ih (fun x hx => h x (List.mem_cons_of_mem _ hx))]
+
+theorem filter_keys {α : Type} (m : Map α) (vis : Str → Bool) :
+    (m.filter (fun p => vis p.1)).map (·.1) = (Map.keys m).filter vis := by
+  unfold Map.keys
+  rw [List.filter_map]
+  rfl
+
+/-- direct lines and user table of a fold whose body appends at most one line and keeps `users` -/
+theorem foldl_opt_reply {α : Type} (f : Ctx → α → Ctx) (g : Map User → α → Option Str) (l : List α) (x : Ctx)
+    (hf : ∀ (y : Ctx) (a : α), (f y a).w.users = y.w.users ∧
+      (f y a).direct = y.direct ++ (g y.w.users a).toList) :
+    (l.foldl f x).direct = x.direct ++ l.filterMap (g x.w.users) ∧ (l.foldl f x).w.users = x.w.users := by
+  induction l generalizing x with
+  | nil => simp
+  | cons a l ih =>
+    obtain ⟨h1, h2⟩ := hf x a
+    obtain ⟨i1, i2⟩ := ih (f x a)
+    rw [List.foldl_cons]
+    refine ⟨?_, i2.trans h1⟩
+    rw [i1, h2, h1]
+    cases hg : g x.w.users a <;> simp [hg]
+
+theorem disjoint_false_of_common {a b : KSet} {k : Str} (ha : k ∈ a) (hb : KSet.mem k b = true) :
+    KSet.disjoint a b = false := by
+  unfold KSet.disjoint
+  rw [List.all_eq_false]
+  exact ⟨k, ha, by simp [hb]⟩
+
+/-! ### 13. the reply lines of NAMES / WHO / WHOIS -/
+
+open Reply in
+/-- the 353 lines of one channel -/
+theorem namesLines_direct (cfg : Cfg) (cn : Conn) (chname : Str) (ch : Channel) (users : Map User) (x : Ctx)
+    (hne : ∀ p, p ∈ ch.users → p.1 ≠ []) :
+    (namesLines cfg cn chname ch users x).direct = x.direct ++
+      (chunks 20 (ch.users.filterMap (fun p =>
+          match Map.lookup p.1 users with
+          | some u =>
+            if (!u.modes.invisible || (match cn.nick with
+                                        | some n => Map.contains n ch.users
+                                        | none => false)) = true
+            then some (p.2.prefixStr cn.multiPrefix, p.1) else none
+          | none => none))).map
+        (fun chunk => ':' :: (cfg.name ++ ' ' ::
+          RplNameReply353 cn.clientName (if ch.modes.secret then ['@'] else ['=']) chname chunk)) := by
+  simp only [namesLines]
+  rw [RO.foldl_reply_direct]
+  congr 1
+  · rw [apply_ite Ctx.direct, Ctx.panic_direct, ite_self]
+  · congr 2
+    rw [List.filterMap_map]
+    apply filterMap_congr'
+    intro p hp
+    have hp1 := hne p hp
+    obtain ⟨m, chum⟩ := p
+    simp only [Function.comp]
+    cases Map.lookup m users with
+    | none => rfl
+    | some u =>
+      simp only
+      generalize (!u.modes.invisible || (match cn.nick with
+                                        | some n => Map.contains n ch.users
+                                        | none => false)) = b
+      cases b
+      · simp
+      · have : m.isEmpty = false := by
+          cases m with
+          | nil => exact absurd rfl hp1
+          | cons a l => rfl
+        simp [this]
+
+open Reply in
+/-- the reply of `send_names_from_channel`, without `match` expressions in the statement -/
+theorem sendNames_direct (cfg : Cfg) (c : Nat) (chname : Str) (C : Channel) (theEnd : Bool) (x : Ctx)
+    (hne : ∀ p, p ∈ C.users → p.1 ≠ []) :
+    (sendNamesFromChannel cfg c chname C theEnd x).direct = x.direct ++
+      (if (!C.modes.secret || (x.conn c).nick.any (fun n => Map.contains n C.users)) = true then
+        (chunks 20 (C.users.filterMap (fun p =>
+          if (Map.lookup p.1 x.w.users).any (fun u => !u.modes.invisible ||
+              (x.conn c).nick.any (fun n => Map.contains n C.users)) = true
+          then some (p.2.prefixStr (x.conn c).multiPrefix, p.1) else none))).map
+          (fun chunk => srvLine cfg
+            (RplNameReply353 (x.conn c).clientName (if C.modes.secret then ['@'] else ['=']) chname chunk)) ++
+        (if theEnd = true then [srvLine cfg (RplEndOfNames366 (x.conn c).clientName chname)] else [])
+       else []) := by
+  have hfm : ∀ b : Bool,
+      C.users.filterMap (fun p =>
+          match Map.lookup p.1 x.w.users with
+          | some u => if (!u.modes.invisible || b) = true
+                      then some (p.2.prefixStr (x.conn c).multiPrefix, p.1) else none
+          | none => none) =
+      C.users.filterMap (fun p =>
+          if (Map.lookup p.1 x.w.users).any (fun u => !u.modes.invisible || b) = true
+          then some (p.2.prefixStr (x.conn c).multiPrefix, p.1) else none) := by
+    intro b
+    apply filterMap_congr'
+    intro p _
+    cases Map.lookup p.1 x.w.users <;> simp
+  have aux : ∀ (b : Bool) (nl : Ctx) (L : List Str) (t : Str), nl.direct = x.direct ++ L →
+      (if (!C.modes.secret || b) = true then (if theEnd = true then nl.reply cfg t else nl) else x).direct =
+        x.direct ++ (if (!C.modes.secret || b) = true then
+          L ++ (if theEnd = true then [':' :: (cfg.name ++ ' ' :: t)] else []) else []) := by
+    intro b nl L t hnl
+    cases (!C.modes.secret || b) <;> cases theEnd <;> simp [hnl]
+  have hnl := namesLines_direct cfg (x.conn c) chname C x.w.users x hne
+  cases hnk : (x.conn c).nick with
+  | none =>
+    simp only [hnk] at hnl
+    rw [hfm false] at hnl
+    have := aux false _ _ (RplEndOfNames366 (x.conn c).clientName chname) hnl
+    simp only [sendNamesFromChannel, hnk, Option.any_none, srvLine_eq]
+    exact this
+  | some n =>
+    simp only [hnk] at hnl
+    rw [hfm (Map.contains n C.users)] at hnl
+    have := aux (Map.contains n C.users) _ _ (RplEndOfNames366 (x.conn c).clientName chname) hnl
+    simp only [sendNamesFromChannel, hnk, Option.any_some, srvLine_eq]
+    exact this
+
+open Reply in
+/-- the reply of WHO for a channel the sender is entitled to look at -/
+theorem processWho_channel_direct {cfg : Cfg} {c : Nat} {mask : Str} {x : Ctx} {nick : Str} {user : User}
+    {C : Channel} (hn : (x.conn c).nick = some nick) (hu : Map.lookup nick x.w.users = some user)
+    (hw1 : containsChar '*' mask = false) (hw2 : containsChar '?' mask = false)
+    (hv : validateChannel mask = true) (hC : Map.lookup mask x.w.channels = some C)
+    (hs : (!C.modes.secret || Map.contains nick C.users) = true) :
+    (processWho cfg c mask x).direct = x.direct ++
+      C.users.filterMap (fun p =>
+        match Map.lookup p.1 x.w.users with
+        | some uu =>
+          if (!uu.modes.invisible || !(KSet.disjoint uu.channels user.channels)) = true then
+            some (':' :: (cfg.name ++ ' ' :: RplWhoReply352 (x.conn c).clientName mask uu.name uu.hostname
+              cfg.name p.1
+              ((if uu.away.isSome then ['G'] else ['H']) ++ (if uu.modes.isLocalOper then ['*'] else []) ++
+                p.2.prefixStr (x.conn c).multiPrefix) 0 uu.realname))
+          else none
+        | none => none) ++
+      [':' :: (cfg.name ++ ' ' :: RplEndOfWho315 (x.conn c).clientName mask)] := by
+  simp only [processWho, hn, hu, hw1, hw2, Bool.or_self, Bool.false_eq_true, ↓reduceIte, hv, hC, hs,
+    Ctx.reply_direct]
+  congr 1
+  refine (foldl_opt_reply _ (fun us (p : Str × ChanUserModes) =>
+        match Map.lookup p.1 us with
+        | some uu =>
+          if (!uu.modes.invisible || !(KSet.disjoint uu.channels user.channels)) = true then
+            some (':' :: (cfg.name ++ ' ' :: RplWhoReply352 (x.conn c).clientName mask uu.name uu.hostname
+              cfg.name p.1
+              ((if uu.away.isSome then ['G'] else ['H']) ++ (if uu.modes.isLocalOper then ['*'] else []) ++
+                p.2.prefixStr (x.conn c).multiPrefix) 0 uu.realname))
+          else none
+        | none => none) C.users x ?_).1
+  intro y p
+  obtain ⟨m, chum⟩ := p
+  simp only
+  cases Map.lookup m y.w.users with
+  | none => exact ⟨rfl, by simp⟩
+  | some uu =>
+    simp only [sendWhoInfo]
+    split
+    · exact ⟨rfl, by simp⟩
+    · exact ⟨rfl, by simp⟩
+
+open Reply in
+/-- WHOIS says nothing about an invisible user that shares no channel with the asker -/
+theorem whoisOne_hidden {cfg : Cfg} {cn : Conn} {user : User} {nick : Str} {x : Ctx} {au : User}
+    (hau : Map.lookup nick x.w.users = some au)
+    (hvis : (au.modes.invisible && KSet.disjoint au.channels user.channels) = true) :
+    whoisOne cfg cn user nick x = x := by
+  simp only [whoisOne, hau, hvis, ↓reduceIte]
+
+/-- the channel entries of a 319 reply -/
+def whoisShown (w : World) (mp : Bool) (nick : Str) (au : User) : List (Option Str × Str) :=
+  au.channels.filterMap (fun chn =>
+    match Map.lookup chn w.channels with
+    | some ch =>
+      if !ch.modes.secret then
+        (match Map.lookup nick ch.users with
+         | some chum => some (some (chum.prefixStr mp), chn)
+         | none => none)
+      else none
+    | none => none)
+
+open Reply in
+/-- the reply lines of WHOIS for one visible nick -/
+theorem whoisOne_direct {cfg : Cfg} {cn : Conn} {user : User} {nick : Str} {x : Ctx} {au : User}
+    (hau : Map.lookup nick x.w.users = some au)
+    (hvis : (au.modes.invisible && KSet.disjoint au.channels user.channels) = false) :
+    (whoisOne cfg cn user nick x).direct = x.direct ++
+      (if au.modes.registered then [srvLine cfg (RplWhoIsRegNick307 cn.clientName nick)] else []) ++
+      [srvLine cfg (RplWhoIsUser311 cn.clientName nick au.name au.hostname au.realname),
+       srvLine cfg (RplWhoIsServer312 cn.clientName nick cfg.name cfg.info)] ++
+      (if au.modes.isLocalOper then [srvLine cfg (RplWhoIsOperator313 cn.clientName nick)] else []) ++
+      (chunks 30 (whoisShown x.w cn.multiPrefix nick au)).map
+        (fun chunk => srvLine cfg (RplWhoIsChannels319 cn.clientName nick chunk)) ++
+      [srvLine cfg (RplwhoIsIdle317 cn.clientName nick 0 0)] ++
+      (if au.modes.isLocalOper then
+        [srvLine cfg (RplWhoIsHost378 cn.clientName nick au.hostname),
+         srvLine cfg (RplWhoIsModes379 cn.clientName nick au.modes.render)] else []) := by
+  simp only [whoisOne, hau, hvis, Bool.false_eq_true, ↓reduceIte]
+  cases au.modes.registered <;> cases au.modes.isLocalOper <;>
+    simp only [Bool.false_eq_true, ↓reduceIte, Ctx.reply_w, apply_ite Ctx.direct, Ctx.reply_direct,
+      RO.foldl_reply_direct, Ctx.panic_direct, ite_self, srvLine_eq, List.append_assoc,
+      List.cons_append, List.nil_append, List.append_nil] <;>
+    (generalize hT : List.filterMap _ (List.map _ au.channels) = T
+     have hTe : T = whoisShown x.w cn.multiPrefix nick au := by
+       rw [← hT]
+       unfold whoisShown
+       rw [List.filterMap_map]
+       apply filterMap_congr'
+       intro chn _
+       simp only [Function.comp]
+       cases Map.lookup chn x.w.channels with
+       | none => rfl
+       | some ch =>
+         simp only
+         cases ch.modes.secret with
+         | true => rfl
+         | false =>
+           simp only [Bool.not_false, ↓reduceIte]
+           cases Map.lookup nick ch.users <;> rfl
+     rw [hTe])
+
+/-! ### 14. the membership relation after a NICK change -/
+
+theorem nick_rename_memOf {cfg : Cfg} {c : Nat} {nick : Str} {msg : Message} {x : Ctx}
+    {old : Str} {user : User} (h : InvCore x.w)
+    (ha : (x.conn c).authenticated = true) (hnick : (x.conn c).nick = some old) (hne : nick ≠ old)
+    (hfree : Map.contains nick x.w.users = false) (hold : Map.lookup old x.w.users = some user)
+    (ch m : Str) :
+    (processNick cfg c nick msg x).w.memOf ch m =
+      if m = nick then x.w.memOf ch old else if m = old then false else x.w.memOf ch m := by
+  obtain ⟨chans', hW, _, hch⟩ := Reg.processNick_rename_w (cfg := cfg) (msg := msg) h ha hnick hne hfree hold
+  have hl : Map.lookup ch (processNick cfg c nick msg x).w.channels = Map.lookup ch chans' := by rw [hW]
+  have hsym := h.memberSym old user ch hold
+  cases hmem : KSet.mem ch user.channels with
+  | true =>
+    obtain ⟨C, hC, hc⟩ := hsym.mp hmem
+    obtain ⟨chum, hchum⟩ := (Map.contains_iff _ _).mp hc
+    have hl' : Map.lookup ch (processNick cfg c nick msg x).w.channels = _ := hl.trans (hch ch)
+    rw [hmem, if_pos rfl, hC] at hl'
+    simp only [Option.bind_some, Reg.renameUser_of_lookup hchum] at hl'
+    rw [Memb.World.memOf_of_lookup hl']
+    simp only [Memb.World.memOf_of_lookup hC]
+    show Map.contains m (Map.insert nick chum (Map.erase old C.users)) = _
+    unfold Map.contains
+    rw [Map.lookup_insert, Map.lookup_erase]
+    by_cases e1 : m = nick
+    · subst e1; simp [hchum]
+    · have e1' : ¬ nick = m := fun e => e1 e.symm
+      by_cases e2 : m = old
+      · subst e2; simp [e1, e1']
+      · have e2' : ¬ old = m := fun e => e2 e.symm
+        simp [e1, e1', e2, e2']
+  | false =>
+    have hl' : Map.lookup ch (processNick cfg c nick msg x).w.channels = Map.lookup ch x.w.channels := by
+      rw [hl, hch ch, hmem]; simp
+    rw [Memb.World.memOf_congr hl']
+    have hnotold : x.w.memOf ch old = false := by
+      cases hh : x.w.memOf ch old with
+      | false => rfl
+      | true =>
+        have := hsym.mpr ((Memb.World.memOf_iff _ _ _).mp hh)
+        rw [hmem] at this; cases this
+    have hnotnew : x.w.memOf ch nick = false := by
+      cases hh : x.w.memOf ch nick with
+      | false => rfl
+      | true =>
+        obtain ⟨C, hC, hc⟩ := (Memb.World.memOf_iff _ _ _).mp hh
+        have := h.memberIsUser ch C nick hC hc
+        rw [hfree] at this; cases this
+    by_cases e1 : m = nick
+    · subst e1; simp [hnotold, hnotnew]
+    · by_cases e2 : m = old
+      · subst e2; simp [e1, hnotold]
+      · simp [e1, e2]
+
+/-! ### 15. handler frames: the stored maximum and the membership relation -/
+
+/-- `w'` has the same stored user maximum and the same membership relation as `w` -/
+def Keeps (w w' : World) : Prop :=
+  w'.maxUsers = w.maxUsers ∧ ∀ ch m, w'.memOf ch m = w.memOf ch m
+
+theorem Keeps.refl (w : World) : Keeps w w := ⟨rfl, fun _ _ => rfl⟩
+
+theorem Keeps.of_eq {w w' : World} (e : w' = w) : Keeps w w' := by subst e; exact Keeps.refl _
+
+theorem Keeps.of_fields {w w' : World} (hm : w'.maxUsers = w.maxUsers) (hc : w'.channels = w.channels) :
+    Keeps w w' :=
+  ⟨hm, fun ch m => Memb.World.memOf_congr (by rw [hc]) m⟩
+
+theorem Keeps.trans {a b c : World} (h1 : Keeps a b) (h2 : Keeps b c) : Keeps a c :=
+  ⟨h2.1.trans h1.1, fun ch m => (h2.2 ch m).trans (h1.2 ch m)⟩
+
+theorem sendAll_keeps (x : Ctx) (ns : List Str) (l : Str) : Keeps x.w (x.sendAll ns l).w := by
+  unfold Ctx.sendAll
+  induction ns generalizing x with
+  | nil => exact Keeps.refl _
+  | cons n ns ih =>
+    simp only [List.foldl_cons]
+    exact Keeps.trans (Keeps.of_fields (Ctx.send_maxUsers ..) (Ctx.send_channels ..)) (ih _)
+
+theorem foldl_sendDisplay_keeps (src t : Str) (ns : List Str) (x : Ctx) :
+    Keeps x.w (ns.foldl (fun x n => x.sendDisplay n src t) x).w := by
+  induction ns generalizing x with
+  | nil => exact Keeps.refl _
+  | cons n ns ih =>
+    simp only [List.foldl_cons]
+    refine Keeps.trans (Keeps.of_fields ?_ (Ctx.sendDisplay_channels ..)) (ih _)
+    unfold Ctx.sendDisplay; exact Ctx.send_maxUsers ..
+
+theorem processAway_keeps {cfg : Cfg} {c : Nat} {text : Option Str} {x : Ctx} :
+    Keeps x.w (processAway cfg c text x).w := by
+  unfold processAway
+  simp only
+  split
+  · exact Keeps.of_fields rfl rfl
+  · split
+    · exact Keeps.of_fields rfl rfl
+    · split <;> exact Keeps.of_fields rfl rfl
+
+theorem processOper_keeps {cfg : Cfg} {c : Nat} {name password : Str} {x : Ctx} :
+    Keeps x.w (processOper cfg c name password x).w := by
+  unfold processOper
+  simp only
+  repeat' split
+  all_goals first
+    | exact Keeps.of_fields rfl rfl
+    | (simp only [Ctx.reply_w, Ctx.modifyW_w]; split <;> exact Keeps.of_fields rfl rfl)
+
+theorem processInvite_keeps {cfg : Cfg} {c : Nat} {nickname channel : Str} {msg : Message} {x : Ctx} :
+    Keeps x.w (processInvite cfg c nickname channel msg x).w := by
+  unfold processInvite
+  simp only
+  repeat' split
+  all_goals first
+    | exact Keeps.of_fields rfl rfl
+    | exact Keeps.of_fields (by simp) (by simp)
+
+theorem processTopic_keeps {cfg : Cfg} {c : Nat} {channel : Str} {topic : Option Str} {msg : Message} {x : Ctx} :
+    Keeps x.w (processTopic cfg c channel topic msg x).w := by
+  unfold processTopic
+  simp only
+  split
+  · exact Keeps.of_fields rfl rfl
+  · split
+    · split
+      · rename_i ch hch
+        split
+        · split
+          · refine Keeps.trans ?_ (sendAll_keeps _ _ _)
+            refine ⟨rfl, fun ch2 m => ?_⟩
+            simp only [Ctx.modifyW_w]
+            by_cases e : channel = ch2
+            · subst e
+              rw [Memb.World.memOf_of_lookup (Map.lookup_insert_eq _ _ _), Memb.World.memOf_of_lookup hch]
+            · exact Memb.World.memOf_congr (Map.lookup_insert_ne _ _ _ _ e) m
+          · exact Keeps.of_fields rfl rfl
+        · exact Keeps.of_fields rfl rfl
+      · exact Keeps.of_fields rfl rfl
+    · repeat' split
+      all_goals exact Keeps.of_fields rfl rfl
+
+theorem fireKill_keeps (killer comment nick : Str) (w : World) : Keeps w (fireKill killer comment nick w) := by
+  unfold fireKill
+  cases Map.lookup nick w.users with
+  | none => exact Keeps.refl _
+  | some u =>
+    simp only
+    split
+    · exact Keeps.refl _
+    · split <;> exact Keeps.of_fields rfl rfl
+
+theorem fireKill_fold_keeps (killer comment : Str) (ns : List Str) (w : World) :
+    Keeps w (ns.foldl (fun w n => fireKill killer comment n w) w) := by
+  induction ns generalizing w with
+  | nil => exact Keeps.refl _
+  | cons n ns ih => simp only [List.foldl_cons]; exact Keeps.trans (fireKill_keeps ..) (ih _)
+
+theorem processKill_keeps {cfg : Cfg} {c : Nat} {nickname comment : Str} {x : Ctx} :
+    Keeps x.w (processKill cfg c nickname comment x).w := by
+  unfold processKill
+  simp only
+  repeat' split
+  all_goals first
+    | exact Keeps.of_fields rfl rfl
+    | exact fireKill_keeps ..
+
+theorem processDie_keeps {cfg : Cfg} {c : Nat} {message : Option Str} {x : Ctx} :
+    Keeps x.w (processDie cfg c message x).w := by
+  unfold processDie
+  simp only
+  repeat' split
+  all_goals first
+    | exact Keeps.of_fields rfl rfl
+    | exact Keeps.trans (fireKill_fold_keeps ..) (Keeps.of_fields rfl rfl)
+
+theorem processSquit_keeps {cfg : Cfg} {c : Nat} {server comment : Str} {x : Ctx} :
+    Keeps x.w (processSquit cfg c server comment x).w := by
+  unfold processSquit
+  split
+  · exact Keeps.of_fields rfl rfl
+  · exact processDie_keeps
+
+theorem processModeUser_keeps {cfg : Cfg} {c : Nat} {target : Str} {modes : List (Str × List Str)} {x : Ctx}
+    {u : User} (h : InvCore x.w) (hu : Map.lookup target x.w.users = some u) :
+    Keeps x.w (processModeUser cfg c target modes x).w := by
+  unfold processModeUser
+  simp only [hu]
+  split
+  · exact Keeps.refl _
+  · have hbi : u.modes.invisible.toNat ≤ x.w.invisibleCount := by
+      rw [h.invisibleCount]
+      rcases Bool.eq_false_or_eq_true u.modes.invisible with e | e
+      · have := Modes.Map.filter_pos_of_lookup (fun v : User => v.modes.invisible) target _ u hu e
+        rw [e]; exact this
+      · rw [e]; exact Nat.zero_le _
+    have hbo : u.modes.isLocalOper.toNat ≤ x.w.operatorsCount := by
+      rw [h.operatorsCount]
+      rcases Bool.eq_false_or_eq_true u.modes.isLocalOper with e | e
+      · have := Modes.Map.filter_pos_of_lookup (fun v : User => v.modes.isLocalOper) target _ u hu e
+        rw [e]; exact this
+      · rw [e]; exact Nat.zero_le _
+    have h0 : Modes.UAccInv x.w target u.modes.invisible.toNat u.modes.isLocalOper.toNat
+        { x := x, modes := u.modes } := by
+      refine ⟨rfl, rfl, rfl, rfl, rfl, rfl, rfl, rfl, ?_⟩
+      intro k
+      by_cases e : k = target
+      · subst e; simp only [↓reduceIte]
+        rw [h.wallopsSet k]
+        constructor
+        · rintro ⟨v, hv, hw'⟩; rw [hu] at hv; cases hv; exact hw'
+        · intro hw'; exact ⟨u, hu, hw'⟩
+      · simp [e]
+    have hf := Modes.umode_fold_inv (cfg := cfg) (cn := x.conn c) hbi hbo modes h0
+    generalize (modes.foldl (fun a g =>
+        g.1.foldl (umodeChar cfg (x.conn c) target) { a with modeSet := false })
+        ({ x := x, modes := u.modes } : UModeAcc)) = a at hf
+    split <;> exact Keeps.of_fields hf.maxUsers hf.channels
+
+theorem processModeChannel_keeps {cfg : Cfg} {c : Nat} {target t : Str} {ch : Channel} {chum : ChanUserModes}
+    {modes : List (Str × List Str)} {x : Ctx} (h : InvCore x.w)
+    (hch : Map.lookup target x.w.channels = some ch)
+    (hv : validateChannelmodes t modes = .ok ()) :
+    Keeps x.w (processModeChannel cfg c target ch modes chum x).w := by
+  unfold processModeChannel
+  simp only
+  split
+  · exact Keeps.refl _
+  · have hf := Modes.modeGroups_inv (cfg := cfg) (cn := x.conn c) (target := target) (chum := chum)
+      (w0 := x.w) (ch0 := ch) modes hv (a := { x := x, ch := ch, args := [] })
+      ⟨rfl, rfl, h.rankMirror _ _ hch, rfl⟩
+    generalize (modes.foldl (modeGroup cfg (x.conn c) target chum)
+      ({ x := x, ch := ch, args := [] } : ModeAcc)) = a at hf
+    have hk : Keeps x.w ({ a.x.w with channels := Map.insert target a.ch a.x.w.channels } : World) := by
+      refine ⟨by simp only [hf.w], fun ch2 m => ?_⟩
+      simp only [hf.w]
+      by_cases e : target = ch2
+      · subst e
+        rw [Memb.World.memOf_of_lookup (Map.lookup_insert_eq _ _ _), Memb.World.memOf_of_lookup hch]
+        exact Modes.Map.contains_eq_of_keys_eq m _ _ hf.keys
+      · exact Memb.World.memOf_congr (Map.lookup_insert_ne _ _ _ _ e) m
+    split
+    · exact Keeps.trans hk (foldl_sendDisplay_keeps _ _ _ _)
+    · exact hk
+
+theorem processMode_keeps {cfg : Cfg} {c : Nat} {target : Str} {modes : List (Str × List Str)} {x : Ctx}
+    (h : InvCore x.w) (hl : Live x.w c) (ha : (x.conn c).authenticated = true)
+    (hv : Command.validate (.MODE target modes) = .ok ()) :
+    Keeps x.w (processMode cfg c target modes x).w := by
+  obtain ⟨n, u, hn, hu, _⟩ := Modes.sender_user h hl ha
+  unfold processMode
+  simp only [hn]
+  unfold Command.validate at hv
+  by_cases hvc : validateChannel target = true
+  · simp only [hvc, ↓reduceIte] at hv ⊢
+    cases hch : Map.lookup target x.w.channels with
+    | none => exact Keeps.refl _
+    | some ch =>
+      simp only
+      cases hcu : Map.lookup n ch.users with
+      | none => exact Keeps.refl _
+      | some chum => exact processModeChannel_keeps h hch hv
+  · simp only [hvc, Bool.false_eq_true, ↓reduceIte]
+    split
+    · rename_i e
+      have e' : n = target := by simpa using e
+      subst e'
+      exact processModeUser_keeps h hu
+    · split <;> exact Keeps.refl _
+
+theorem processCap_auth_keeps {cfg : Cfg} {c : Nat} {sub : CapCommand} {caps : Option (List Str)} {x : Ctx}
+    (ha : (x.conn c).authenticated = true) : Keeps x.w (processCap cfg c sub caps x).w := by
+  unfold processCap
+  cases sub with
+  | LS => exact Keeps.of_fields rfl rfl
+  | LIST => exact Keeps.of_fields rfl rfl
+  | REQ =>
+    simp only
+    split
+    · split <;> exact Keeps.of_fields rfl rfl
+    · exact Keeps.of_fields rfl rfl
+  | END =>
+    simp only [ha, Bool.not_true, Bool.false_eq_true, ↓reduceIte]
+    exact Keeps.of_fields rfl rfl
+
+theorem processPass_auth_keeps {cfg : Cfg} {c : Nat} {p : Str} {x : Ctx}
+    (ha : (x.conn c).authenticated = true) : Keeps x.w (processPass cfg c p x).w := by
+  unfold processPass
+  simp only [ha, Bool.not_true, Bool.false_eq_true, ↓reduceIte]
+  exact Keeps.of_fields rfl rfl
+
+theorem processUser_auth_keeps {cfg : Cfg} {c : Nat} {u r : Str} {x : Ctx}
+    (ha : (x.conn c).authenticated = true) : Keeps x.w (processUser cfg c u r x).w := by
+  unfold processUser
+  simp only [ha, Bool.not_true, Bool.false_eq_true, ↓reduceIte]
+  exact Keeps.of_fields rfl rfl
+
+theorem processNick_auth_maxUsers {cfg : Cfg} {c : Nat} {nick : Str} {msg : Message} {x : Ctx}
+    (h : InvCore x.w) (hl : Live x.w c) (ha : (x.conn c).authenticated = true) :
+    (processNick cfg c nick msg x).w.maxUsers = x.w.maxUsers := by
+  obtain ⟨hm, hcid⟩ := Reg.Ctx.conn_of_live hl
+  obtain ⟨old, user, hnick, hold, _⟩ := h.authOwns _ hm ha
+  by_cases hne : nick = old
+  · have : processNick cfg c nick msg x = x := by
+      unfold processNick
+      simp only [ha, Bool.not_true, Bool.false_eq_true, ↓reduceIte, hnick, hne, bne_self_eq_false]
+    rw [this]
+  · by_cases hc : Map.contains nick x.w.users = true
+    · have : (processNick cfg c nick msg x).w = x.w := by
+        unfold processNick
+        have : (nick != old) = true := by simpa using hne
+        simp only [ha, Bool.not_true, Bool.false_eq_true, ↓reduceIte, hnick, this, hc, Ctx.reply_w]
+      rw [this]
+    · have hc' : Map.contains nick x.w.users = false := by simpa using hc
+      obtain ⟨chans', hW, _, _⟩ := Reg.processNick_rename_w (cfg := cfg) (msg := msg) h ha hnick hne hc' hold
+      rw [hW]; rfl
+
+/-- a command of a registered connection never changes the stored user maximum -/
+theorem dispatch_auth_maxUsers {cfg : Cfg} {c : Nat} {msg : Message} {cmd : Command} {x : Ctx}
+    (h : InvCore x.w) (hl : Live x.w c) (ha : (x.conn c).authenticated = true)
+    (hcmd : Command.fromMessage msg = .ok cmd) :
+    (dispatch cfg c msg cmd x).w.maxUsers = x.w.maxUsers := by
+  have hv := fromMessage_ok_validate hcmd
+  cases cmd with
+  | CAP sub caps v => exact (processCap_auth_keeps ha).1
+  | AUTHENTICATE => rfl
+  | PASS p => exact (processPass_auth_keeps ha).1
+  | NICK n => exact processNick_auth_maxUsers h hl ha
+  | USER u a b r => exact (processUser_auth_keeps ha).1
+  | QUIT => rfl
+  | PING t => rfl
+  | PONG t => rfl
+  | MOTD t => exact congrArg World.maxUsers processMotd_world_unchanged
+  | LUSERS => exact congrArg World.maxUsers (processLusers_world_unchanged h)
+  | CONNECT a b d => rfl
+  | REHASH => rfl
+  | RESTART => rfl
+  | NAMES chs => exact congrArg World.maxUsers (processNames_world_unchanged h)
+  | LIST chs s => exact congrArg World.maxUsers processList_world_unchanged
+  | VERSION t => exact congrArg World.maxUsers processVersion_world_unchanged
+  | ADMIN t => exact congrArg World.maxUsers processAdmin_world_unchanged
+  | TIME s => exact congrArg World.maxUsers processTime_world_unchanged
+  | LINKS r m => exact congrArg World.maxUsers processLinks_world_unchanged
+  | HELP s => exact congrArg World.maxUsers processHelp_world_unchanged
+  | INFO => rfl
+  | WHOWAS n cnt s => exact congrArg World.maxUsers processWhowas_world_unchanged
+  | USERHOST ns => exact congrArg World.maxUsers processUserhost_world_unchanged
+  | ISON ns => exact congrArg World.maxUsers processIson_world_unchanged
+  | OPER n p => exact processOper_keeps.1
+  | JOIN chs keys =>
+    obtain ⟨_, _, _, _, _, f, _⟩ := Memb.join_all (cfg := cfg) (channels := chs) (keys := keys) h hl ha
+    exact f.maxUsers
+  | PART chs r =>
+    obtain ⟨_, _, _, f, _⟩ := Memb.part_all (cfg := cfg) (channels := chs) (reason := r) h hl ha
+    exact f.maxUsers
+  | TOPIC ch t => exact processTopic_keeps.1
+  | INVITE n ch => exact processInvite_keeps.1
+  | KICK ch us cm =>
+    obtain ⟨_, _, _, f, _⟩ := Memb.kick_all (cfg := cfg) (channel := ch) (kickUsers := us) (comment := cm) h hl ha
+    exact f.maxUsers
+  | STATS q s => exact congrArg World.maxUsers (processStats_world_unchanged h hl ha)
+  | MODE t ms => exact (processMode_keeps h hl ha hv).1
+  | PRIVMSG ts t => exact congrArg World.maxUsers (processPrivmsgNotice_world_unchanged h hl ha)
+  | NOTICE ts t => exact congrArg World.maxUsers (processPrivmsgNotice_world_unchanged h hl ha)
+  | WHO m => exact congrArg World.maxUsers (processWho_world_unchanged h hl ha)
+  | WHOIS t ns => exact congrArg World.maxUsers (processWhois_world_unchanged h hl ha)
+  | KILL n cm => exact processKill_keeps.1
+  | SQUIT s cm => exact processSquit_keeps.1
+  | AWAY t => exact processAway_keeps.1
+  | WALLOPS t => exact congrArg World.maxUsers (processWallops_world_unchanged h hl ha)
+  | DIE m => exact processDie_keeps.1
+
+/-- the commands that change the membership relation in their handler -/
+def changesMembership : Command → Bool
+  | .JOIN .. | .PART .. | .KICK .. | .NICK .. => true
+  | _ => false
+
+/-- every other command of a registered connection leaves the membership relation alone (QUIT, KILL,
+    DIE and SQUIT only flag connections; the removal happens in the settling phase) -/
+theorem dispatch_auth_memOf {cfg : Cfg} {c : Nat} {msg : Message} {cmd : Command} {x : Ctx}
+    (h : InvCore x.w) (hl : Live x.w c) (ha : (x.conn c).authenticated = true)
+    (hcmd : Command.fromMessage msg = .ok cmd) (hno : changesMembership cmd = false) (ch m : Str) :
+    (dispatch cfg c msg cmd x).w.memOf ch m = x.w.memOf ch m := by
+  have hv := fromMessage_ok_validate hcmd
+  have we : ∀ {w' : World}, w' = x.w → w'.memOf ch m = x.w.memOf ch m := fun e => by rw [e]
+  cases cmd with
+  | CAP sub caps v => exact (processCap_auth_keeps ha).2 ch m
+  | AUTHENTICATE => rfl
+  | PASS p => exact (processPass_auth_keeps ha).2 ch m
+  | NICK n => simp [changesMembership] at hno
+  | USER u a b r => exact (processUser_auth_keeps ha).2 ch m
+  | QUIT => rfl
+  | PING t => rfl
+  | PONG t => rfl
+  | MOTD t => exact we processMotd_world_unchanged
+  | LUSERS => exact we (processLusers_world_unchanged h)
+  | CONNECT a b d => rfl
+  | REHASH => rfl
+  | RESTART => rfl
+  | NAMES chs => exact we (processNames_world_unchanged h)
+  | LIST chs s => exact we processList_world_unchanged
+  | VERSION t => exact we processVersion_world_unchanged
+  | ADMIN t => exact we processAdmin_world_unchanged
+  | TIME s => exact we processTime_world_unchanged
+  | LINKS r m => exact we processLinks_world_unchanged
+  | HELP s => exact we processHelp_world_unchanged
+  | INFO => rfl
+  | WHOWAS n cnt s => exact we processWhowas_world_unchanged
+  | USERHOST ns => exact we processUserhost_world_unchanged
+  | ISON ns => exact we processIson_world_unchanged
+  | OPER n p => exact processOper_keeps.2 ch m
+  | JOIN chs keys => simp [changesMembership] at hno
+  | PART chs r => simp [changesMembership] at hno
+  | TOPIC ch' t => exact processTopic_keeps.2 ch m
+  | INVITE n ch' => exact processInvite_keeps.2 ch m
+  | KICK ch' us cm => simp [changesMembership] at hno
+  | STATS q s => exact we (processStats_world_unchanged h hl ha)
+  | MODE t ms => exact (processMode_keeps h hl ha hv).2 ch m
+  | PRIVMSG ts t => exact we (processPrivmsgNotice_world_unchanged h hl ha)
+  | NOTICE ts t => exact we (processPrivmsgNotice_world_unchanged h hl ha)
+  | WHO m' => exact we (processWho_world_unchanged h hl ha)
+  | WHOIS t ns => exact we (processWhois_world_unchanged h hl ha)
+  | KILL n cm => exact processKill_keeps.2 ch m
+  | SQUIT s cm => exact processSquit_keeps.2 ch m
+  | AWAY t => exact processAway_keeps.2 ch m
+  | WALLOPS t => exact we (processWallops_world_unchanged h hl ha)
+  | DIE m' => exact processDie_keeps.2 ch m
+
+/-! ### 16. what a line of an unregistered connection does to the connection list and the maximum -/
+
+structure UnregFrame (c : Nat) (x y : Ctx) : Prop where
+  /-- the records of all other connections are untouched -/
+  others : ∀ z, z ∈ y.w.conns → z.id ≠ c → z ∈ x.w.conns
+  /-- the own record keeps its quit / kill flags unless the connection stays unregistered -/
+  own : ∀ z, z ∈ y.w.conns → z.id = c →
+    (z.quit = (x.conn c).quit ∧ z.killedBy = (x.conn c).killedBy) ∨ z.authenticated = false
+  /-- the stored maximum only follows the size of the user table -/
+  max : y.w.maxUsers = x.w.maxUsers ∨ y.w.maxUsers = max x.w.maxUsers y.w.users.length
+
+theorem addUser_maxUsers_eq (w : World) (nick : Str) (u : User) :
+    (w.addUser nick u).maxUsers = max w.maxUsers (w.addUser nick u).users.length := by
+  rw [Reg.World.addUser_users]
+  unfold World.addUser
+  cases u.modes.invisible <;> cases u.modes.wallops <;> cases u.modes.isLocalOper <;>
+    simp only [Bool.false_eq_true, ↓reduceIte] <;> split <;> simp only [] at * <;>
+    omega
+
+/-- a live unauthenticated connection is `x.conn c`, and that is the only record with id `c` -/
+theorem conn_eq_of_id {x : Ctx} {c : Nat} (h : InvCore x.w) (hl : Live x.w c) {z : Conn}
+    (hz : z ∈ x.w.conns) (hid : z.id = c) : z = x.conn c := by
+  obtain ⟨hm, hcid⟩ := Reg.Ctx.conn_of_live hl
+  exact conn_unique h hz hm (hid.trans hcid.symm)
+
+theorem unregFrame_of_w_eq {c : Nat} {x y : Ctx} (h : InvCore x.w) (hl : Live x.w c) (e : y.w = x.w) :
+    UnregFrame c x y := by
+  refine ⟨fun z hz _ => by rw [e] at hz; exact hz, fun z hz hid => ?_, Or.inl (by rw [e])⟩
+  rw [e] at hz
+  rw [conn_eq_of_id h hl hz hid]
+  exact Or.inl ⟨rfl, rfl⟩
+
+/-- only the own record is replaced -/
+theorem unregFrame_setConn {c : Nat} {x : Ctx} {cn' : Conn} (hid : cn'.id = c)
+    (hf : (cn'.quit = (x.conn c).quit ∧ cn'.killedBy = (x.conn c).killedBy) ∨ cn'.authenticated = false) :
+    UnregFrame c x (x.setConn cn') := by
+  refine ⟨fun z hz hne => ?_, fun z hz hzid => ?_, Or.inl rfl⟩
+  · rcases Modes.mem_setConn hz with ⟨h1, _⟩ | ⟨h1, _⟩
+    · exact h1
+    · subst h1; exact absurd hid hne
+  · rcases Modes.mem_setConn hz with ⟨_, h2⟩ | ⟨h1, _⟩
+    · exact absurd (hzid.trans hid.symm) h2
+    · subst h1; exact hf
+
+theorem UnregFrame.reply {c : Nat} {x y : Ctx} (f : UnregFrame c x y) (cfg : Cfg) (t : Str) :
+    UnregFrame c x (y.reply cfg t) := ⟨f.others, f.own, f.max⟩
+
+/-- pre-composition with an update of the own record that keeps the flags -/
+theorem UnregFrame.after_setConn {c : Nat} {x y : Ctx} {cn' : Conn} (hl : Live x.w c) (hid : cn'.id = c)
+    (hq : cn'.quit = (x.conn c).quit) (hk : cn'.killedBy = (x.conn c).killedBy)
+    (f : UnregFrame c (x.setConn cn') y) : UnregFrame c x y := by
+  have hc : (x.setConn cn').conn c = cn' := Reg.Ctx.conn_setConn_live hl hid
+  refine ⟨fun z hz hne => ?_, fun z hz hzid => ?_, f.max⟩
+  · rcases Modes.mem_setConn (f.others z hz hne) with ⟨h1, _⟩ | ⟨h1, _⟩
+    · exact h1
+    · subst h1; exact absurd hid hne
+  · have := f.own z hz hzid
+    rw [hc, hq, hk] at this
+    exact this
+
+theorem authenticate_unregFrame {cfg : Cfg} {c : Nat} {x : Ctx} (h : InvCore x.w) (hl : Live x.w c)
+    (hu : (x.conn c).authenticated = false) : UnregFrame c x (authenticate cfg c x) := by
+  obtain ⟨hm, hid⟩ := Reg.Ctx.conn_of_live hl
+  rcases Reg.authenticate_w_cases cfg c x h hl hu with e | ⟨cn', e, h1, h2, _⟩ | ⟨nick, r, hn, hfree, e⟩
+  · exact unregFrame_of_w_eq h hl e
+  · have f := unregFrame_setConn (x := x) (cn' := cn') (h1.trans hid) (Or.inr h2)
+    exact ⟨by rw [e]; exact f.others, by rw [e]; exact f.own, by rw [e]; exact f.max⟩
+  · have e_conns : (authenticate cfg c x).w.conns = (x.w.setConn (Reg.regConn (x.conn c) r)).conns := by
+      rw [e, Reg.World.setConn_conns, Reg.World.addUser_conns, ← Reg.World.setConn_conns,
+        Reg.setConn_setConn x.w (Reg.regConn1 (x.conn c) r) (Reg.regConn (x.conn c) r) rfl]
+    have f := unregFrame_setConn (x := x) (cn' := Reg.regConn (x.conn c) r) hid (Or.inl ⟨rfl, rfl⟩)
+    refine ⟨by rw [e_conns]; exact f.others, by rw [e_conns]; exact f.own, Or.inr ?_⟩
+    rw [e]
+    simp only [World.setConn_maxUsers, World.setConn_users]
+    rw [addUser_maxUsers_eq]
+    rfl
+
+theorem setConn_authenticate_unregFrame {cfg : Cfg} {c : Nat} {x : Ctx} {cn' : Conn} (h : InvCore x.w)
+    (hl : Live x.w c) (hu : (x.conn c).authenticated = false) (hid : cn'.id = c)
+    (hu' : cn'.authenticated = false) (hr1 : cn'.hasSender = (x.conn c).hasSender)
+    (hr2 : cn'.hasQuitSender = (x.conn c).hasQuitSender)
+    (hr3 : cn'.hasPingSender = (x.conn c).hasPingSender)
+    (hq : cn'.quit = (x.conn c).quit) (hk : cn'.killedBy = (x.conn c).killedBy) :
+    UnregFrame c x (authenticate cfg c (x.setConn cn')) := by
+  obtain ⟨hm, hcid⟩ := Reg.Ctx.conn_of_live hl
+  have h1 : InvCore (x.setConn cn').w :=
+    Reg.invCore_setConn_unauth h hm (by rw [hid, hcid]) hu hu' hr1 hr2 hr3
+  have hl1 : Live (x.setConn cn').w c := Reg.live_setConn cn' hl
+  have hc1 : (x.setConn cn').conn c = cn' := Reg.Ctx.conn_setConn_live hl hid
+  exact (authenticate_unregFrame (cfg := cfg) h1 hl1 (by rw [hc1]; exact hu')).after_setConn hl hid hq hk
+
+/-- any line of a live unregistered connection -/
+theorem handleLine_unregFrame {cfg : Cfg} {c : Nat} {s : Str} {x : Ctx}
+    (h : InvCore x.w) (hl : Live x.w c) (hu : (x.conn c).authenticated = false) :
+    UnregFrame c x (handleLine cfg c s x) := by
+  unfold handleLine
+  simp only
+  split
+  · exact unregFrame_of_w_eq h hl rfl
+  · exact unregFrame_of_w_eq h hl rfl
+  · exact unregFrame_of_w_eq h hl rfl
+  · rename_i msg _
+    split
+    · exact unregFrame_of_w_eq h hl rfl
+    · rename_i cmd hcmd
+      have hb : InvCore (x.modifyW (fun w => bumpCount w cmd.id.index)).w := invCore_bumpCount h _
+      have hlb : Live (x.modifyW (fun w => bumpCount w cmd.id.index)).w c := hl
+      have hub : ((x.modifyW (fun w => bumpCount w cmd.id.index)).conn c).authenticated = false := hu
+      have lift : ∀ {y : Ctx}, UnregFrame c (x.modifyW (fun w => bumpCount w cmd.id.index)) y →
+          UnregFrame c x y := fun f => ⟨f.others, f.own, f.max⟩
+      apply lift
+      generalize x.modifyW (fun w => bumpCount w cmd.id.index) = x' at hb hlb hub
+      obtain ⟨hm', hcid'⟩ := Reg.Ctx.conn_of_live hlb
+      split
+      · exact unregFrame_of_w_eq hb hlb rfl
+      · rename_i hg
+        have hall : allowedUnregistered cmd = true := by
+          rw [hu] at hg
+          simpa using hg
+        cases cmd with
+        | CAP sub caps v =>
+          simp only [dispatch]
+          unfold processCap
+          cases sub with
+          | LS =>
+            exact (unregFrame_setConn (cn' := { x'.conn c with capsNeg := true }) hcid'
+              (Or.inl ⟨rfl, rfl⟩)).reply cfg _
+          | LIST => exact unregFrame_of_w_eq hb hlb rfl
+          | REQ =>
+            simp only
+            have f1 : UnregFrame c x' (x'.setConn { x'.conn c with capsNeg := true }) :=
+              unregFrame_setConn hcid' (Or.inl ⟨rfl, rfl⟩)
+            cases caps with
+            | none => exact f1
+            | some cs =>
+              simp only
+              split
+              · refine UnregFrame.reply ?_ cfg _
+                rw [show (x'.setConn { x'.conn c with capsNeg := true }).setConn
+                      (if cs.isEmpty then { x'.conn c with capsNeg := true }
+                       else { x'.conn c with capsNeg := true, multiPrefix := true }) =
+                    x'.setConn (if cs.isEmpty then { x'.conn c with capsNeg := true }
+                       else { x'.conn c with capsNeg := true, multiPrefix := true }) from by
+                  unfold Ctx.setConn
+                  simp only
+                  rw [Reg.setConn_setConn _ _ _ (by split <;> rfl)]]
+                apply unregFrame_setConn
+                · split <;> exact hcid'
+                · split <;> exact Or.inl ⟨rfl, rfl⟩
+              · exact f1.reply cfg _
+          | END =>
+            simp only [hub, Bool.not_false, ↓reduceIte]
+            exact setConn_authenticate_unregFrame hb hlb hub hcid' rfl rfl rfl rfl rfl rfl
+        | AUTHENTICATE => exact unregFrame_of_w_eq hb hlb rfl
+        | PASS p =>
+          simp only [dispatch]
+          unfold processPass
+          simp only [hub, Bool.not_false, ↓reduceIte]
+          exact setConn_authenticate_unregFrame hb hlb hub hcid' rfl rfl rfl rfl rfl rfl
+        | NICK n =>
+          simp only [dispatch]
+          unfold processNick
+          simp only [hub, Bool.not_false, ↓reduceIte]
+          split
+          · exact setConn_authenticate_unregFrame hb hlb hub hcid' hub rfl rfl rfl rfl rfl
+          · exact unregFrame_of_w_eq hb hlb rfl
+        | USER u a b r =>
+          simp only [dispatch]
+          unfold processUser
+          simp only [hub, Bool.not_false, ↓reduceIte]
+          exact setConn_authenticate_unregFrame hb hlb hub hcid' hub rfl rfl rfl rfl rfl
+        | QUIT =>
+          simp only [dispatch]
+          unfold processQuit
+          exact (unregFrame_setConn (cn' := { x'.conn c with quit := true }) hcid' (Or.inr hub)).reply cfg _
+        | _ => simp [allowedUnregistered] at hall
+
+/-! ### 17. the stored maximum along `step` -/
+
+theorem teardown_maxUsers {w : World} (h : InvCore w) {cn : Conn} (hm : cn ∈ w.conns) :
+    (teardown w cn.id).maxUsers = w.maxUsers := by
+  cases ha : cn.authenticated with
+  | false => exact (teardown_unauthenticated_noop h hm ha).2.2.2.2.2.1
+  | true =>
+    obtain ⟨n, u, hn, _, _⟩ := h.authOwns cn hm ha
+    exact (teardown_keeps_others h hm ha hn).2.2.2.2.2
+
+theorem foldl_settleW_maxUsers (l : List Nat) {w : World} (h : InvCore w) :
+    (l.foldl settleW w).maxUsers = w.maxUsers := by
+  induction l generalizing w with
+  | nil => rfl
+  | cons i l ih =>
+    rw [List.foldl_cons, ih (settleW_spec h i).1]
+    rcases settleW_cases h i with e | ⟨cn, hm, _, _, e⟩
+    · rw [e]
+    · rw [e]; exact teardown_maxUsers h hm
+
+theorem settle_maxUsers {w : World} (h : InvCore w) (cfg : Cfg) (outs : List (Nat × Str)) (evs : List Str) :
+    (settle cfg w outs evs).1.maxUsers = w.maxUsers := by
+  unfold settle
+  rw [settle_w]
+  exact foldl_settleW_maxUsers _ h
+
+/-- if the only connection that can be flagged is an unregistered one, the settling phase changes
+    neither users nor channels nor the maximum -/
+theorem settle_only_unauth_flagged {w : World} (h : InvCore w) {c : Nat}
+    (hf : ∀ z, z ∈ w.conns → flagged z = true → z.id = c ∧ z.authenticated = false)
+    (cfg : Cfg) (outs : List (Nat × Str)) (evs : List Str) :
+    (settle cfg w outs evs).1.users = w.users ∧ (settle cfg w outs evs).1.channels = w.channels ∧
+    (settle cfg w outs evs).1.maxUsers = w.maxUsers := by
+  by_cases hex : ∃ z, z ∈ w.conns ∧ flagged z = true
+  · obtain ⟨z, hz, hfz⟩ := hex
+    obtain ⟨hzid, hza⟩ := hf z hz hfz
+    have ho : ∀ y, y ∈ w.conns → y.id ≠ z.id → y.quit = false ∧ y.killedBy = none := by
+      intro y hy hne
+      apply flagged_false.mp
+      cases hfy : flagged y with
+      | false => rfl
+      | true => exact absurd ((hf y hy hfy).1.trans hzid.symm) hne
+    rw [settle_one h hz hfz ho]
+    obtain ⟨a, b, _, _, _, c', _⟩ := teardown_unauthenticated_noop h hz hza
+    exact ⟨a, b, c'⟩
+  · have hs : ∀ cn, cn ∈ w.conns → cn.quit = false ∧ cn.killedBy = none := by
+      intro cn hcn
+      apply flagged_false.mp
+      cases hfc : flagged cn with
+      | false => rfl
+      | true => exact absurd ⟨cn, hcn, hfc⟩ hex
+    rw [settle_of_settled cfg w outs evs hs]
+    exact ⟨rfl, rfl, rfl⟩
+
+/-- a line of an unregistered connection, at `step` level: the settling phase does nothing to users,
+    channels and the maximum -/
+theorem step_unreg_line {cfg : Cfg} {w : World} (h : Inv w) {cn : Conn} (hm : cn ∈ w.conns)
+    (ha : cn.authenticated = false) (s : Str) :
+    (step cfg w (.line cn.id s)).w.users = (handleLine cfg cn.id s { w := w }).w.users ∧
+    (step cfg w (.line cn.id s)).w.channels = (handleLine cfg cn.id s { w := w }).w.channels ∧
+    (step cfg w (.line cn.id s)).w.maxUsers = (handleLine cfg cn.id s { w := w }).w.maxUsers := by
+  have hl : Live w cn.id := ⟨cn, hm, rfl⟩
+  have hc : Ctx.conn { w := w } cn.id = cn := Reg.Ctx.conn_of_conn? (conn?_mem h.toInvCore hm)
+  have hu : (Ctx.conn { w := w } cn.id).authenticated = false := by rw [hc]; exact ha
+  have f := handleLine_unregFrame (cfg := cfg) (s := s) (x := { w := w }) h.toInvCore hl hu
+  have hi := (invCore_handleLine (cfg := cfg) (s := s) (x := { w := w }) h.toInvCore hl).1
+  unfold step
+  simp only [conn?_mem h.toInvCore hm]
+  unfold finish
+  simp only
+  apply settle_only_unauth_flagged hi (c := cn.id)
+  intro z hz hfz
+  by_cases hid : z.id = cn.id
+  · refine ⟨hid, ?_⟩
+    rcases f.own z hz hid with ⟨hq, hk⟩ | hza
+    · rw [hc] at hq hk
+      obtain ⟨s1, s2⟩ := h.settled cn hm
+      rw [flagged_false.mpr ⟨hq.trans s1, hk.trans s2⟩] at hfz; cases hfz
+    · exact hza
+  · have := h.settled z (f.others z hz hid)
+    rw [flagged_false.mpr this] at hfz; cases hfz
+
+theorem handleLine_auth_maxUsers {cfg : Cfg} {c : Nat} {s : Str} {x : Ctx}
+    (h : InvCore x.w) (hl : Live x.w c) (ha : (x.conn c).authenticated = true) :
+    (handleLine cfg c s x).w.maxUsers = x.w.maxUsers := by
+  unfold handleLine
+  simp only
+  split
+  · rfl
+  · rfl
+  · rfl
+  · rename_i msg _
+    split
+    · rfl
+    · rename_i cmd hcmd
+      split
+      · rfl
+      · exact dispatch_auth_maxUsers (x := x.modifyW (fun w => bumpCount w cmd.id.index))
+          (invCore_bumpCount h _) hl ha hcmd
+
+theorem max_eq_of_same {w w' : World} (hi : InvCore w') (e : w'.maxUsers = w.maxUsers) :
+    w'.maxUsers = max w.maxUsers w'.users.length := by
+  have := hi.maxUsers
+  omega
+
+/-- **the stored maximum is a running maximum**: after every operation it is the larger of its old
+    value and the new number of users -/
+theorem step_maxUsers {cfg : Cfg} {w : World} (h : Inv w) {e : Event} (hs : Sched w e) :
+    (step cfg w e).w.maxUsers = max w.maxUsers (step cfg w e).w.users.length := by
+  have hi' : InvCore (step cfg w e).w := (inv_step h hs).toInvCore
+  cases e with
+  | connect c ip =>
+    apply max_eq_of_same hi'
+    rcases step_connect_w cfg w c ip with e | e <;> rw [e]
+  | line c s =>
+    cases hc : w.conn? c with
+    | none =>
+      apply max_eq_of_same hi'
+      unfold step; simp only [hc]
+    | some cn =>
+      obtain ⟨hm, hid⟩ := conn?_some hc
+      subst hid
+      have hcc : Ctx.conn { w := w } cn.id = cn := Reg.Ctx.conn_of_conn? hc
+      cases ha : cn.authenticated with
+      | true =>
+        apply max_eq_of_same hi'
+        have hl : Live w cn.id := ⟨cn, hm, rfl⟩
+        have hW := (invCore_handleLine (cfg := cfg) (s := s) (x := { w := w }) h.toInvCore hl).1
+        have : (step cfg w (.line cn.id s)).w.maxUsers = (handleLine cfg cn.id s { w := w }).w.maxUsers := by
+          unfold step
+          simp only [hc]
+          unfold finish
+          exact settle_maxUsers hW cfg _ _
+        rw [this]
+        exact handleLine_auth_maxUsers (x := { w := w }) h.toInvCore hl (by rw [hcc]; exact ha)
+      | false =>
+        obtain ⟨e1, _, e3⟩ := step_unreg_line (cfg := cfg) h hm ha s
+        have hl : Live w cn.id := ⟨cn, hm, rfl⟩
+        have f := handleLine_unregFrame (cfg := cfg) (s := s) (x := { w := w }) h.toInvCore hl
+          (by rw [hcc]; exact ha)
+        rcases f.max with e | e
+        · exact max_eq_of_same hi' (e3.trans e)
+        · rw [e3, e1]; exact e
+  | tooLong c =>
+    apply max_eq_of_same hi'
+    cases hc : w.conn? c with
+    | none => unfold step; simp only [hc]
+    | some cn =>
+      obtain ⟨hm, hid⟩ := conn?_some hc
+      subst hid
+      rw [step_tooLong_w h hm]; exact teardown_maxUsers h.toInvCore hm
+  | badUtf8 c =>
+    apply max_eq_of_same hi'
+    cases hc : w.conn? c with
+    | none => unfold step; simp only [hc]
+    | some cn =>
+      obtain ⟨hm, hid⟩ := conn?_some hc
+      subst hid
+      rw [step_badUtf8_w h hm]; exact teardown_maxUsers h.toInvCore hm
+  | eof c =>
+    apply max_eq_of_same hi'
+    cases hc : w.conn? c with
+    | none => unfold step; simp only [hc]
+    | some cn =>
+      obtain ⟨hm, hid⟩ := conn?_some hc
+      subst hid
+      rw [step_eof_w h hm]; exact teardown_maxUsers h.toInvCore hm
+  | reset c =>
+    apply max_eq_of_same hi'
+    cases hc : w.conn? c with
+    | none => unfold step; simp only [hc]
+    | some cn =>
+      obtain ⟨hm, hid⟩ := conn?_some hc
+      subst hid
+      rw [step_reset_w h hm]; exact teardown_maxUsers h.toInvCore hm
+  | partialLine c s =>
+    apply max_eq_of_same hi'
+    unfold step
+    simp only
+    split <;> rfl
+
+theorem handleLine_auth_memOf {cfg : Cfg} {c : Nat} {s : Str} {x : Ctx}
+    (h : InvCore x.w) (hl : Live x.w c) (ha : (x.conn c).authenticated = true)
+    (hno : ∀ msg cmd, Message.parse s = .ok msg → Command.fromMessage msg = .ok cmd →
+      changesMembership cmd = false) (ch m : Str) :
+    (handleLine cfg c s x).w.memOf ch m = x.w.memOf ch m := by
+  unfold handleLine
+  simp only
+  split
+  · rfl
+  · rfl
+  · rfl
+  · rename_i msg hmsg
+    split
+    · rfl
+    · rename_i cmd hcmd
+      split
+      · rfl
+      · exact dispatch_auth_memOf (x := x.modifyW (fun w => bumpCount w cmd.id.index))
+          (invCore_bumpCount h _) hl ha hcmd (hno msg cmd hmsg hcmd) ch m
+
+/-! ### 18. KILL at `step` level -/
+
+/-- a line that parses to `KILL nick comment` -/
+def IsKillLine (s : Str) (nick comment : Str) : Prop :=
+  ∃ msg, Message.parse s = .ok msg ∧ Command.fromMessage msg = .ok (.KILL nick comment)
+
+/-- the world right after the handler of a successful KILL of `n` (user `u`, connection `cn`) by the
+    operator `k`: the kill signal is recorded in the victim's user entry and connection record -/
+def killedWorld (w : World) (k comment n : Str) (u : User) (cn : Conn) : World :=
+  ({ bumpCount w CmdId.KILL.index with
+      users := Map.insert n { u with killed := true } w.users } : World).setConn
+    { cn with killedBy := some (k, comment) }
+
+theorem fireKill_eq {W : World} {k comment n : Str} {u : User} {cn : Conn}
+    (hu : Map.lookup n W.users = some u) (hk : u.killed = false) (hc : W.conn? u.owner = some cn) :
+    fireKill k comment n W =
+      ({ W with users := Map.insert n { u with killed := true } W.users } : World).setConn
+        { cn with killedBy := some (k, comment) } := by
+  unfold fireKill
+  simp only [hu, hk, Bool.false_eq_true, ↓reduceIte]
+  have e2 : World.conn? ({ W with users := Map.insert n { u with killed := true } W.users } : World) u.owner
+      = some cn := hc
+  rw [e2]
+
+theorem handleLine_kill_w {cfg : Cfg} {w : World} (h : Inv w) {co : Conn} (hco : co ∈ w.conns)
+    (hca : co.authenticated = true) {k : Str} (hck : co.nick = some k) {uk : User}
+    (huk : Map.lookup k w.users = some uk) (hop : uk.modes.oper = true)
+    {n : Str} {u : User} (hu : Map.lookup n w.users = some u) {cn : Conn} (hcn : cn ∈ w.conns)
+    (hown : cn.id = u.owner) {s comment : Str} (hk : IsKillLine s n comment) :
+    (handleLine cfg co.id s { w := w }).w = killedWorld w k comment n u cn := by
+  obtain ⟨msg, hp, hc⟩ := hk
+  have hconn : ∀ W : World, W.conns = w.conns → (Ctx.conn { w := W } co.id) = co := by
+    intro W hW
+    apply Reg.Ctx.conn_of_conn?
+    show W.conn? co.id = some co
+    unfold World.conn?
+    rw [hW]
+    exact conn?_mem h.toInvCore hco
+  unfold handleLine
+  simp only [hp, hc, allowedUnregistered, Bool.not_false, hconn w rfl, hca, Bool.not_true, Bool.and_false,
+    Bool.false_eq_true, ↓reduceIte, dispatch]
+  unfold processKill
+  have hcb : (Ctx.modifyW { w := w } fun w => bumpCount w (Command.KILL n comment).id.index).conn co.id = co :=
+    hconn _ rfl
+  have hcont : Map.contains n w.users = true := (Map.contains_iff _ _).mpr ⟨u, hu⟩
+  simp only [hcb, hck, Ctx.modifyW_w]
+  have e1 : (bumpCount w (Command.KILL n comment).id.index).users = w.users := rfl
+  simp only [e1, huk, hop, ↓reduceIte, hcont]
+  have hc' : (bumpCount w (Command.KILL n comment).id.index).conn? u.owner = some cn := by
+    rw [← hown]; exact conn?_mem h.toInvCore hcn
+  exact fireKill_eq (W := bumpCount w (Command.KILL n comment).id.index) hu (h.notKilled n u hu) hc'
+
+theorem step_kill_w {cfg : Cfg} {w : World} (h : Inv w) {co : Conn} (hco : co ∈ w.conns)
+    (hca : co.authenticated = true) {k : Str} (hck : co.nick = some k) {uk : User}
+    (huk : Map.lookup k w.users = some uk) (hop : uk.modes.oper = true)
+    {n : Str} {u : User} (hu : Map.lookup n w.users = some u) {cn : Conn} (hcn : cn ∈ w.conns)
+    (hown : cn.id = u.owner) {s comment : Str} (hk : IsKillLine s n comment) :
+    InvCore (killedWorld w k comment n u cn) ∧
+    ({ cn with killedBy := some (k, comment) } : Conn) ∈ (killedWorld w k comment n u cn).conns ∧
+    (step cfg w (.line co.id s)).w = teardown (killedWorld w k comment n u cn) cn.id := by
+  have hl : Live w co.id := ⟨co, hco, rfl⟩
+  have hW := handleLine_kill_w (cfg := cfg) h hco hca hck huk hop hu hcn hown hk
+  have hi : InvCore (killedWorld w k comment n u cn) := by
+    rw [← hW]; exact (invCore_handleLine (cfg := cfg) (s := s) (x := { w := w }) h.toInvCore hl).1
+  have hmem := Reg.mem_setConn (w := ({ bumpCount w CmdId.KILL.index with
+      users := Map.insert n { u with killed := true } w.users } : World))
+      (cn := cn) (cn' := { cn with killedBy := some (k, comment) }) hcn rfl
+  have hm' : ({ cn with killedBy := some (k, comment) } : Conn) ∈ (killedWorld w k comment n u cn).conns :=
+    (hmem _).mpr (Or.inl rfl)
+  refine ⟨hi, hm', ?_⟩
+  unfold step
+  simp only [conn?_mem h.toInvCore hco]
+  unfold finish
+  simp only [hW]
+  exact settle_one hi hm' (by simp [flagged]) (by
+    intro y hy hne
+    rcases (hmem y).mp hy with rfl | ⟨hy', _⟩
+    · exact absurd rfl hne
+    · exact h.settled y hy') cfg _ _
+
 end Irc.IP
